@@ -10,13 +10,20 @@
 (*   [k:"v",id,b] recorder object   [k:"b",b] bool   [k:"none"]   [k:"c",t,r,s,b] scalar     *)
 (*   [k:"seq",t:"list"|"tuple"|"set",e]  [k:"dict",ks,vs]  [k:"slice",e]  [k:"fn",r] [k:"o",r]*)
 (*   [k:"opq"] value the machine cannot compute (plain op plain): wildcard in comparisons    *)
+(*   [k:"ref",a] REFERENCE to a plain mutable container (list / set / dict) on the machine's  *)
+(*     heap st.h (Round 4): displays, comprehensions, starred targets and slices allocate a  *)
+(*     new object; names, containers and in-flight values hold references; subscript / slice *)
+(*     stores, del and the in-place operators mutate the object - visible through every      *)
+(*     reference.  The recorder's descriptors are structural snapshots: Reify expands the    *)
+(*     machine's references before anything is compared with the recording.  An object whose *)
+(*     content the machine does not compute (s -= {..}, x[::2] = ..) has content Opq.        *)
 (* Event: [e, op, n, xs, names, r, x].                                                      *)
 (*                                                                                          *)
 (* st = [l (next event), ok, kind, why, want, fl, q, ni, exc]                               *)
 (*   fl : set of NAMED DEVIATION FLAGS (known defects of the pinned tree); fl = {} is Python *)
 (*   q/ni : recorder modes quietstr / noinplace;  exc : recorded exception (lookahead only   *)
 (*   to classify a raise inside an unrecorded plain primitive as "not-modelled").            *)
-EXTENDS Naturals, Sequences, FiniteSets, TLC, Json, IOUtils
+EXTENDS Integers, Sequences, FiniteSets, TLC, Json, IOUtils
 
 NoneV   == [k |-> "none"]
 Opq     == [k |-> "opq"]
@@ -25,6 +32,8 @@ B(b)    == [k |-> "b", b |-> b]
 StrC(s) == [k |-> "c", t |-> "str", r |-> s, s |-> s, b |-> s # ""]
 SeqV(t, e) == [k |-> "seq", t |-> t, e |-> e]
 IsRec(v) == v.k = "v"
+Ref(a)   == [k |-> "ref", a |-> a]
+IsRef(v) == v.k = "ref"
 
 AllFlags == {"dict-value-first", "call-kw-first", "cmp-operand-twice", "cmp-bool-result",
              "aug-target-twice", "aug-binary-op", "fstring-conv-ignored", "uadd-noop",
@@ -43,6 +52,7 @@ Same(a, b) ==
   IF a.k = "opq" \/ b.k = "opq" THEN TRUE
   ELSE IF a.k # b.k THEN FALSE
   ELSE CASE a.k = "v"     -> a.id = b.id /\ a.b = b.b
+         [] a.k = "ref"   -> a.a = b.a
          [] a.k = "b"     -> a.b = b.b
          [] a.k = "c"     -> a.t = b.t /\ a.s = b.s
          [] a.k = "seq"   -> a.t = b.t /\ IF a.t = "set" THEN SameSet(a.e, b.e) ELSE SameSeq(a.e, b.e)
@@ -53,7 +63,7 @@ Same(a, b) ==
 
 \* ---------------------------------------------------------------- state and result records
 NoWant == [e |-> "", op |-> "", xs |-> <<>>, names |-> <<>>, n |-> 0]
-St0(fl, opts, exc) == [l |-> 1, ok |-> TRUE, nm |-> FALSE, cut |-> FALSE, kind |-> "", why |-> "", want |-> NoWant, fl |-> fl,
+St0(fl, opts, exc) == [l |-> 1, h |-> <<>>, ok |-> TRUE, nm |-> FALSE, cut |-> FALSE, kind |-> "", why |-> "", want |-> NoWant, fl |-> fl,
                        q |-> opts.quietstr, ni |-> opts.noinplace, exc |-> exc]
 Fail(st, kind, why) == IF st.ok THEN [st EXCEPT !.ok = FALSE, !.kind = kind, !.why = why] ELSE st
 NotMod(st, kind, what) == IF st.ok THEN [Fail(st, kind, "not-modelled: " \o what) EXCEPT !.nm = TRUE] ELSE st
@@ -68,16 +78,33 @@ S(st, env, x) == [st |-> st, env |-> env, x |-> x]                          \* s
 SofR(r) == [st |-> r.st, env |-> r.env, x |-> r.x]
 Has(st, f) == f \in st.fl
 
+\* ---------------------------------------------------------------- the heap
+Deref(st, v) == IF v.k = "ref" THEN st.h[v.a] ELSE v
+Alloc(st, obj) == [st EXCEPT !.h = Append(@, obj)]
+New(st, obj, env) == IF st.ok THEN Ok(Alloc(st, obj), Ref(Len(st.h) + 1), env) ELSE Ex(st, "", env)
+HPut(st, a, obj) == [st EXCEPT !.h[a] = obj]
+\* structural snapshot of a value (what the recorder's desc() prints)
+RECURSIVE Reify(_, _)
+ReifySeq(h, e) == [i \in 1..Len(e) |-> Reify(h, e[i])]
+Reify(h, v) == CASE v.k = "ref"   -> Reify(h, h[v.a])
+                 [] v.k = "seq"   -> [v EXCEPT !.e = ReifySeq(h, v.e)]
+                 [] v.k = "dict"  -> [v EXCEPT !.ks = ReifySeq(h, v.ks), !.vs = ReifySeq(h, v.vs)]
+                 [] v.k = "slice" -> [v EXCEPT !.e = ReifySeq(h, v.e)]
+                 [] OTHER -> v
+ReifyEnv(h, env) == [m \in DOMAIN env |-> Reify(h, env[m])]
+IsListD(d) == d.k = "seq" /\ d.t = "list"
+IsTupD(d)  == d.k = "seq" /\ d.t = "tuple"
+
 \* expect one primitive event; result = logged result / logged exception
 Prim(st, tr, env, kind, e, op, xs, names, n) ==
   IF ~st.ok THEN Ex(st, "", env)
   ELSE IF st.l > Len(tr)
        THEN Ex([Fail(st, kind, "recording ends early: expected " \o e) EXCEPT
-                  !.want = [e |-> e, op |-> op, xs |-> xs, names |-> names, n |-> n]], "", env)
+                  !.want = [e |-> e, op |-> op, xs |-> ReifySeq(st.h, xs), names |-> names, n |-> n]], "", env)
   ELSE LET got == tr[st.l] IN
        IF got.e # e THEN Ex(Fail(st, kind, "expected " \o e \o (IF op = "" THEN "" ELSE "." \o op) \o " got " \o got.e \o (IF got.op = "" THEN "" ELSE "." \o got.op)), "", env)
        ELSE IF got.op # op THEN Ex(Fail(st, kind, "expected " \o e \o "." \o op \o " got " \o e \o "." \o got.op), "", env)
-       ELSE IF got.n # n \/ got.names # names \/ ~SameSeq(got.xs, xs) THEN Ex(Fail(st, kind, "operands differ for " \o e), "", env)
+       ELSE IF got.n # n \/ got.names # names \/ ~SameSeq(got.xs, ReifySeq(st.h, xs)) THEN Ex(Fail(st, kind, "operands differ for " \o e), "", env)
        ELSE IF got.x # "" THEN Ex(Adv(st), got.x, env)
        ELSE Ok(Adv(st), got.r, env)
 
@@ -92,12 +119,15 @@ OpaqueOp(st, env, kind, tr) ==
   IF st.l > Len(tr) /\ st.exc # "" THEN Ex(NotMod(st, kind, "plain primitive that may have raised"), "", env)
   ELSE Ok(st, Opq, env)
 
-CanTruth(v) == v.k # "opq"
-TruthOf(v) == CASE v.k \in {"b", "c", "v"} -> v.b
+CanTruthD(v) == v.k # "opq"
+TruthOfD(v) == CASE v.k \in {"b", "c", "v"} -> v.b
                 [] v.k = "none" -> FALSE
                 [] v.k = "seq"  -> Len(v.e) > 0
                 [] v.k = "dict" -> Len(v.ks) > 0
                 [] OTHER -> TRUE
+\* (truth of a container = its current content on the heap)
+CanTruth(st, v) == CanTruthD(Deref(st, v))
+TruthOf(st, v)  == TruthOfD(Deref(st, v))
 
 StrOf(v)  == CASE v.k = "c" -> v.s [] v.k = "b" -> (IF v.b THEN "True" ELSE "False") [] OTHER -> "None"
 ReprOf(v) == CASE v.k = "c" -> v.r [] v.k = "b" -> (IF v.b THEN "True" ELSE "False") [] OTHER -> "None"
@@ -121,7 +151,7 @@ Dedupe(e, i, acc) ==
 \* hashing is not an event: an unhashable element of a set / key of a dict raises TypeError inside
 \* a plain primitive; the placement of that raise is not modelled
 RECURSIVE Unhashable(_)
-Unhashable(v) == (v.k = "seq" /\ (v.t \in {"list", "set"} \/ \E i \in 1..Len(v.e) : Unhashable(v.e[i]))) \/ v.k = "dict"
+Unhashable(v) == v.k = "ref" \/ (v.k = "seq" /\ (v.t \in {"list", "set"} \/ \E i \in 1..Len(v.e) : Unhashable(v.e[i]))) \/ v.k = "dict"
 
 RECURSIVE TargetNames(_)
 TargetNames(t) ==
@@ -134,6 +164,68 @@ TargetNames(t) ==
 NotIterable(v) == v.k \in {"none", "b", "slice", "fn"} \/ (v.k = "c" /\ v.t \in {"int", "float", "complex", "ellipsis"})
 \* plain values that are not mappings (no .keys): `**v` raises TypeError
 NotMapping(v) == v.k \in {"none", "b", "c", "seq", "slice"}
+
+\* ---------------------------------------------------------------- item access on plain containers
+\* (integer constants carry their value in field i - harness/pyvalues.desc - when it fits 31 bits)
+IsInt(v) == v.k = "c" /\ v.t = "int" /\ "i" \in DOMAIN v
+\* a[lo:hi] with constant integer / absent bounds and no step
+SliceOK(s) == s.k = "slice" /\ s.e[3].k = "none" /\ \A j \in 1..2 : s.e[j].k = "none" \/ IsInt(s.e[j])
+Clamp(i, n) == IF i < 0 THEN (IF i + n < 0 THEN 0 ELSE i + n) ELSE IF i > n THEN n ELSE i
+SliceLo(s, n) == IF s.e[1].k = "none" THEN 0 ELSE Clamp(s.e[1].i, n)
+SliceHi(s, n) == LET hi == IF s.e[2].k = "none" THEN n ELSE Clamp(s.e[2].i, n) IN IF hi < SliceLo(s, n) THEN SliceLo(s, n) ELSE hi
+Idx(s, n) == IF s.i < 0 THEN s.i + n ELSE s.i              \* 0-based; valid iff 0 <= Idx < n
+\* keys whose hash / equality the machine can decide structurally (no 1 == 1.0 == True coincidences)
+KeyOK(k) == k.k \in {"v", "none"} \/ (k.k = "c" /\ k.t \in {"str", "bytes"}) \/ IsInt(k)
+DictFind(d, k) == IF \E j \in 1..Len(d.ks) : d.ks[j].k # "opq" /\ Same(d.ks[j], k) THEN CHOOSE j \in 1..Len(d.ks) : d.ks[j].k # "opq" /\ Same(d.ks[j], k) ELSE 0
+AllKeysOK(d) == \A j \in 1..Len(d.ks) : KeyOK(d.ks[j])
+Without(e, lo, hi) == SubSeq(e, 1, lo) \o SubSeq(e, hi + 1, Len(e))      \* e minus the 0-based range [lo, hi)
+
+\* the outcome of a plain primitive the machine does not compute: it may have raised (then the recording ends here)
+MayRaise(st, tr) == st.l > Len(tr) /\ st.exc # ""
+
+\* o[s] where o is not a recorder object
+PlainGet(o, s, st, tr, env, kind) ==
+  LET d == Deref(st, o) IN
+  IF d.k = "seq" /\ d.t \in {"list", "tuple"} /\ IsInt(s) THEN
+       IF Idx(s, Len(d.e)) >= 0 /\ Idx(s, Len(d.e)) < Len(d.e) THEN Ok(st, d.e[Idx(s, Len(d.e)) + 1], env) ELSE Ex(st, "IndexError", env)
+  ELSE IF d.k = "seq" /\ d.t \in {"list", "tuple"} /\ SliceOK(s) THEN
+       LET part == SubSeq(d.e, SliceLo(s, Len(d.e)) + 1, SliceHi(s, Len(d.e))) IN
+       IF d.t = "tuple" THEN Ok(st, SeqV("tuple", part), env) ELSE New(st, SeqV("list", part), env)      \* a slice of a list is a NEW list
+  ELSE IF d.k = "dict" /\ KeyOK(s) /\ DictFind(d, s) # 0 THEN Ok(st, d.vs[DictFind(d, s)], env)
+  ELSE IF d.k = "dict" /\ KeyOK(s) /\ AllKeysOK(d) THEN Ex(st, "KeyError", env)
+  ELSE OpaqueOp(st, env, kind, tr)
+
+\* o[s] = v where o is a reference: the object is changed in place (every reference sees it)
+PlainSet(o, s, v, st, tr, env, kind) ==
+  LET d == st.h[o.a]
+      unknown == IF MayRaise(st, tr) THEN S(NotMod(st, kind, "plain store that may have raised"), env, "")
+                 ELSE S(HPut(st, o.a, Opq), env, "") IN
+  IF IsListD(d) /\ IsInt(s) THEN
+       IF Idx(s, Len(d.e)) >= 0 /\ Idx(s, Len(d.e)) < Len(d.e) THEN S(HPut(st, o.a, [d EXCEPT !.e[Idx(s, Len(d.e)) + 1] = v]), env, "")
+       ELSE S(st, env, "IndexError")
+  ELSE IF IsListD(d) /\ SliceOK(s) THEN
+       LET dv == Deref(st, v) IN
+       IF dv.k = "seq" /\ dv.t \in {"list", "tuple"} THEN
+            S(HPut(st, o.a, SeqV("list", SubSeq(d.e, 1, SliceLo(s, Len(d.e))) \o dv.e \o SubSeq(d.e, SliceHi(s, Len(d.e)) + 1, Len(d.e)))), env, "")
+       ELSE IF ~IsRec(dv) /\ NotIterable(dv) THEN S(st, env, "TypeError")                              \* must assign an iterable
+       ELSE S(NotMod(st, kind, "slice store of a value whose items are not modelled"), env, "")
+  ELSE IF d.k = "dict" /\ KeyOK(s) /\ DictFind(d, s) # 0 THEN S(HPut(st, o.a, [d EXCEPT !.vs[DictFind(d, s)] = v]), env, "")
+  ELSE IF d.k = "dict" /\ KeyOK(s) /\ AllKeysOK(d) THEN S(HPut(st, o.a, [d EXCEPT !.ks = Append(@, s), !.vs = Append(@, v)]), env, "")
+  ELSE unknown
+
+\* del o[s] where o is a reference
+PlainDel(o, s, st, tr, env, kind) ==
+  LET d == st.h[o.a]
+      unknown == IF MayRaise(st, tr) THEN S(NotMod(st, kind, "plain del that may have raised"), env, "")
+                 ELSE S(HPut(st, o.a, Opq), env, "") IN
+  IF IsListD(d) /\ IsInt(s) THEN
+       IF Idx(s, Len(d.e)) >= 0 /\ Idx(s, Len(d.e)) < Len(d.e) THEN S(HPut(st, o.a, SeqV("list", Without(d.e, Idx(s, Len(d.e)), Idx(s, Len(d.e)) + 1))), env, "")
+       ELSE S(st, env, "IndexError")
+  ELSE IF IsListD(d) /\ SliceOK(s) THEN S(HPut(st, o.a, SeqV("list", Without(d.e, SliceLo(s, Len(d.e)), SliceHi(s, Len(d.e))))), env, "")
+  ELSE IF d.k = "dict" /\ KeyOK(s) /\ DictFind(d, s) # 0 THEN
+       LET j == DictFind(d, s) IN S(HPut(st, o.a, [d EXCEPT !.ks = Without(d.ks, j - 1, j), !.vs = Without(d.vs, j - 1, j)]), env, "")
+  ELSE IF d.k = "dict" /\ KeyOK(s) /\ AllKeysOK(d) THEN S(st, env, "KeyError")
+  ELSE unknown
 
 SwapCmp(op) == CASE op = "lt" -> "gt" [] op = "gt" -> "lt" [] op = "le" -> "ge" [] op = "ge" -> "le" [] OTHER -> op
 
@@ -156,7 +248,8 @@ Drain(it, st, tr, env, kind, acc) ==
   ELSE Drain(it, nx.st, tr, env, kind, Append(acc, nx.v))
 
 \* all items of an iterable value (star-unpacking in displays and calls)
-Iterate(val, st, tr, env, kind) ==
+Iterate(val0, st, tr, env, kind) ==
+  LET val == Deref(st, val0) IN
   IF IsRec(val) THEN LET it == Prim(st, tr, env, kind, "iter", "", <<val>>, <<>>, 0) IN
                      IF Stop(it) THEN L(it.st, <<>>, it.x, env) ELSE Drain(it.v, it.st, tr, env, kind, <<>>)
   ELSE IF val.k = "seq" /\ val.t # "set" THEN L(st, val.e, "", env)
@@ -185,16 +278,18 @@ EvalElts(es, i, st, tr, env, acc) ==
 \* one comparison  a <op> b
 CmpPrim(op, a, b, st, tr, env) ==
   IF op \in {"is", "isnot"} THEN
-       IF a.k # b.k THEN Ok(st, B(op = "isnot"), env)
+       IF a.k = "opq" \/ b.k = "opq" THEN Ex(NotMod(st, "Compare", "identity of an unknown value"), "", env)
+       ELSE IF a.k # b.k THEN Ok(st, B(op = "isnot"), env)
        ELSE IF a.k = "v" THEN Ok(st, B((a.id = b.id) = (op = "is")), env)
+       ELSE IF a.k = "ref" THEN Ok(st, B((a.a = b.a) = (op = "is")), env)     \* two references: the same object?
        ELSE IF a.k = "none" THEN Ok(st, B(op = "is"), env)
        ELSE IF a.k = "b" THEN Ok(st, B((a.b = b.b) = (op = "is")), env)
        ELSE Ex(NotMod(st, "Compare", "identity of plain values"), "", env)
   ELSE IF op \in {"in", "notin"} THEN
        IF IsRec(b) THEN LET p == Prim(st, tr, env, "Compare", "contains", "", <<b, a>>, <<>>, 0) IN
                         IF Stop(p) THEN p
-                        ELSE IF ~CanTruth(p.v) THEN Ex(NotMod(p.st, "Compare", "truth of opaque"), "", env)
-                        ELSE Ok(p.st, B(TruthOf(p.v) = (op = "in")), env)
+                        ELSE IF ~CanTruth(p.st, p.v) THEN Ex(NotMod(p.st, "Compare", "truth of opaque"), "", env)
+                        ELSE Ok(p.st, B(TruthOf(p.st, p.v) = (op = "in")), env)
        ELSE Ex(NotMod(st, "Compare", "membership in a plain container"), "", env)
   ELSE IF IsRec(a) THEN Prim(st, tr, env, "Compare", "cmp", op, <<a, b>>, <<>>, 0)
   ELSE IF IsRec(b) THEN Prim(st, tr, env, "Compare", "cmp", SwapCmp(op), <<b, a>>, <<>>, 0)
@@ -212,8 +307,8 @@ Chain(left, n, i, st, tr, env, dummy) ==
   LET last == i = Len(n.ops)
       boolres == Has(st, "cmp-bool-result") IN
   IF last /\ ~boolres THEN c
-  ELSE IF ~CanTruth(c.v) THEN Ex(NotMod(c.st, "Compare", "truth of opaque"), "", c.env)
-  ELSE IF ~TruthOf(c.v) THEN Ok(c.st, IF boolres THEN B(FALSE) ELSE c.v, c.env)
+  ELSE IF ~CanTruth(c.st, c.v) THEN Ex(NotMod(c.st, "Compare", "truth of opaque"), "", c.env)
+  ELSE IF ~TruthOf(c.st, c.v) THEN Ok(c.st, IF boolres THEN B(FALSE) ELSE c.v, c.env)
   ELSE IF last THEN Ok(c.st, B(TRUE), c.env)
   ELSE IF Has(st, "cmp-operand-twice")
        THEN LET again == Eval(n.cs[i], c.st, tr, c.env) IN
@@ -223,20 +318,51 @@ Chain(left, n, i, st, tr, env, dummy) ==
 BoolChain(isAnd, vals, i, st, tr, env) ==
   LET r == Eval(vals[i], st, tr, env) IN
   IF Stop(r) \/ i = Len(vals) THEN r
-  ELSE IF ~CanTruth(r.v) THEN Ex(NotMod(r.st, "BoolOp", "truth of opaque"), "", r.env)
-  ELSE IF TruthOf(r.v) # isAnd THEN r
+  ELSE IF ~CanTruth(r.st, r.v) THEN Ex(NotMod(r.st, "BoolOp", "truth of opaque"), "", r.env)
+  ELSE IF TruthOf(r.st, r.v) # isAnd THEN r
   ELSE BoolChain(isAnd, vals, i + 1, r.st, tr, r.env)
+
+\* a <op> b on two plain values.  Computed: list + list (a NEW list), tuple + tuple, and the in-place
+\* protocol on a mutable object: `x += [..]` / `x += (..)` EXTEND the object x refers to (every reference sees
+\* it) and yield x itself; any other in-place operator on a list / set / dict yields the object itself with a
+\* content the machine does not compute (Opq).   flag aug-binary-op: the binary operator - a new object.
+PlainBin(op, a, b, inplace, st, tr, env, kind) ==
+  LET da == Deref(st, a)
+      db == Deref(st, b)
+      inpl == inplace /\ ~Has(st, "aug-binary-op") IN
+  IF inplace /\ a.k = "opq" THEN Ex(NotMod(st, kind, "in-place operator on an unknown object"), "", env)
+  ELSE IF op = "add" /\ IsListD(da) /\ IsListD(db) THEN
+       IF inpl /\ IsRef(a) THEN Ok(HPut(st, a.a, SeqV("list", da.e \o db.e)), a, env)
+       ELSE New(st, SeqV("list", da.e \o db.e), env)
+  ELSE IF op = "add" /\ IsListD(da) /\ IsTupD(db) /\ inpl /\ IsRef(a) THEN Ok(HPut(st, a.a, SeqV("list", da.e \o db.e)), a, env)
+  ELSE IF op = "add" /\ IsTupD(da) /\ IsTupD(db) THEN Ok(st, SeqV("tuple", da.e \o db.e), env)
+  ELSE IF op = "mul" /\ IsListD(da) /\ IsInt(db) /\ db.i <= 4 THEN                      \* repetition (small counts)
+       LET RECURSIVE Rep(_)
+           Rep(k) == IF k <= 0 THEN <<>> ELSE da.e \o Rep(k - 1) IN
+       IF inpl /\ IsRef(a) THEN Ok(HPut(st, a.a, SeqV("list", Rep(db.i))), a, env) ELSE New(st, SeqV("list", Rep(db.i)), env)
+  ELSE IF op = "or" /\ da.k = "seq" /\ da.t = "set" /\ db.k = "seq" /\ db.t = "set" THEN  \* union
+       IF inpl /\ IsRef(a) THEN Ok(HPut(st, a.a, SeqV("set", Dedupe(da.e \o db.e, 1, <<>>))), a, env)
+       ELSE New(st, SeqV("set", Dedupe(da.e \o db.e, 1, <<>>)), env)
+  ELSE IF inpl /\ IsRef(a) THEN
+       IF st.l > Len(tr) /\ st.exc # "" THEN Ex(NotMod(st, kind, "plain in-place primitive that may have raised"), "", env)
+       ELSE Ok(HPut(st, a.a, Opq), a, env)
+  ELSE OpaqueOp(st, env, kind, tr)
 
 \* a <op> b  (inplace: the augmented-assignment protocol)
 BinPrim(op, a, b, inplace, st, tr, env, kind) ==
   IF IsRec(a) THEN Prim(st, tr, env, kind, "op2", IF inplace /\ ~st.ni /\ ~Has(st, "aug-binary-op") THEN "i" \o op ELSE op, <<a, b>>, <<>>, 0)
   ELSE IF a.k = "c" /\ a.t \in {"str", "bytes"} /\ op = "mod" THEN Ex(NotMod(st, kind, "printf-style formatting"), "", env)
-  ELSE IF IsRec(b) THEN Prim(st, tr, env, kind, "op2", "r" \o op, <<b, a>>, <<>>, 0)
-  ELSE OpaqueOp(st, env, kind, tr)
+  ELSE IF IsRec(b) THEN
+       \* (dict.__ior__ accepts any iterable of pairs: `d |= recorder` iterates instead of calling __ror__)
+       IF inplace /\ op = "or" /\ Deref(st, a).k \in {"dict", "opq"} THEN Ex(NotMod(st, kind, "dict |= recorder object"), "", env)
+       ELSE Prim(st, tr, env, kind, "op2", "r" \o op, <<b, a>>, <<>>, 0)
+  ELSE PlainBin(op, a, b, inplace, st, tr, env, kind)
 
 \* str()/repr() of a plain container: repr of every nested recorder object, in order
-ReprWalk(val, top, st, tr, env, kind) ==
+ReprWalk(val0, top, st, tr, env, kind) ==
+  LET val == Deref(st, val0) IN
   IF ~st.ok THEN S(st, env, "")
+  ELSE IF IsRef(val0) /\ val.k = "opq" /\ ~st.q THEN S(NotMod(st, kind, "repr of an object with unknown content"), env, "")
   ELSE IF IsRec(val) THEN IF st.q THEN S(st, env, "")
                           ELSE SofR(Prim(st, tr, env, kind, "conv", IF top THEN "s" ELSE "r", <<val>>, <<>>, 0))
   ELSE IF val.k = "seq" THEN
@@ -294,12 +420,13 @@ EvalKws(kws, i, st, tr, env, names, vals) ==
                  IF pu.x # "" \/ ~pu.st.ok THEN [st |-> pu.st, names |-> names, vs |-> vals, x |-> pu.x, env |-> r.env]
                  ELSE EvalKws(kws, i + 1, pu.st, tr, r.env, names \o pu.d.ks, vals \o pu.d.vs)   \* non-string keys fail at the call
             ELSE [st |-> r.st, names |-> names, vs |-> vals, x |-> "TypeError", env |-> r.env]       \* not a mapping
-       ELSE IF r.v.k = "dict" THEN
-            IF \E j \in 1..Len(r.v.ks) : KwPos(names, r.v.ks[j]) # 0
+       ELSE LET rv == Deref(r.st, r.v) IN
+            IF rv.k = "dict" THEN
+            IF \E j \in 1..Len(rv.ks) : KwPos(names, rv.ks[j]) # 0
             THEN [st |-> NotMod(r.st, "DStar", "duplicate keyword from a dict display"), names |-> names, vs |-> vals, x |-> "", env |-> r.env]
-            ELSE EvalKws(kws, i + 1, r.st, tr, r.env, names \o r.v.ks, vals \o r.v.vs)
-       ELSE IF NotMapping(r.v) /\ ~Has(st, "dstar-pairs") THEN [st |-> r.st, names |-> names, vs |-> vals, x |-> "TypeError", env |-> r.env]
-       ELSE [st |-> NotMod(r.st, "DStar", "** of a plain " \o r.v.k), names |-> names, vs |-> vals, x |-> "", env |-> r.env]
+            ELSE EvalKws(kws, i + 1, r.st, tr, r.env, names \o rv.ks, vals \o rv.vs)
+       ELSE IF NotMapping(rv) /\ ~Has(st, "dstar-pairs") THEN [st |-> r.st, names |-> names, vs |-> vals, x |-> "TypeError", env |-> r.env]
+       ELSE [st |-> NotMod(r.st, "DStar", "** of a plain " \o rv.k), names |-> names, vs |-> vals, x |-> "", env |-> r.env]
 
 \* deviation dstar-pairs: dict.update(iterable of pairs) instead of "not a mapping"
 PairsUpdate(m, it, st, tr, env, d, kind) ==
@@ -349,10 +476,12 @@ CallNode(n, st, tr, env) ==
        ELSE IF n.f.k = "Name" /\ n.f.id \in Builtins /\ n.f.id \notin DOMAIN env /\ Len(n.kws) = 0
             THEN LET c == Comp(n.args[1], f.st, tr, f.env) IN
                  IF Stop(c) THEN c
-                 ELSE Ok(c.st, SeqV(n.f.id, IF n.f.id = "set" THEN Dedupe(c.v.e, 1, <<>>) ELSE c.v.e), c.env)
+                 ELSE LET ce == Deref(c.st, c.v).e IN
+                      IF n.f.id = "tuple" THEN Ok(c.st, SeqV("tuple", ce), c.env)
+                      ELSE New(c.st, SeqV(n.f.id, IF n.f.id = "set" THEN Dedupe(ce, 1, <<>>) ELSE ce), c.env)
             ELSE Ex(NotMod(f.st, "GeneratorExp", "lazy generator"), "", f.env)
   ELSE IF n.f.k = "Name" /\ n.f.id \in Builtins /\ n.f.id \notin DOMAIN env /\ Len(n.args) = 0 /\ Len(n.kws) = 0
-       THEN Ok(f.st, SeqV(n.f.id, <<>>), f.env)            \* list() / tuple() / set(): the empty container
+       THEN (IF n.f.id = "tuple" THEN Ok(f.st, SeqV("tuple", <<>>), f.env) ELSE New(f.st, SeqV(n.f.id, <<>>), f.env))   \* list() / tuple() / set(): the empty container
   ELSE IF Has(st, "call-kw-first") THEN
        LET kw == EvalKws(n.kws, 1, f.st, tr, f.env, <<>>, <<>>) IN
        IF kw.x = "TypeError" /\ kw.st.ok THEN KwErr(kw.st, tr, kw.env, f.v) ELSE IF kw.x # "" \/ ~kw.st.ok THEN Ex(kw.st, kw.x, kw.env) ELSE
@@ -383,7 +512,8 @@ CallNode(n, st, tr, env) ==
 
 \* {k1: v1, **m, ...}: key before value, pairs left to right (flag dict-value-first: value first)
 DictDisplay(n, i, st, tr, env, d) ==
-  IF i > Len(n.keys) \/ ~st.ok THEN Ok(st, d, env)
+  IF ~st.ok THEN Ex(st, "", env)
+  ELSE IF i > Len(n.keys) THEN New(st, d, env)          \* a new dict object
   ELSE IF n.keys[i].k = "DStar" THEN
        LET m == Eval(n.vals[i], st, tr, env) IN IF Stop(m) THEN m ELSE
        IF IsRec(m.v) THEN
@@ -399,12 +529,13 @@ DictDisplay(n, i, st, tr, env, d) ==
                  LET pu == PairsUpdate(m.v, NoIt, m.st, tr, m.env, d, "DStar") IN
                  IF pu.x # "" \/ ~pu.st.ok THEN Ex(pu.st, pu.x, m.env) ELSE DictDisplay(n, i + 1, pu.st, tr, m.env, pu.d)
             ELSE Ex(m.st, "TypeError", m.env)
-       ELSE IF m.v.k = "dict" THEN
+       ELSE LET mv == Deref(m.st, m.v) IN
+            IF mv.k = "dict" THEN
             LET RECURSIVE Put2(_, _)
-                Put2(j, dd) == IF j > Len(m.v.ks) THEN dd ELSE Put2(j + 1, DictPut(dd, m.v.ks[j], m.v.vs[j], 1))
+                Put2(j, dd) == IF j > Len(mv.ks) THEN dd ELSE Put2(j + 1, DictPut(dd, mv.ks[j], mv.vs[j], 1))
             IN DictDisplay(n, i + 1, m.st, tr, m.env, Put2(1, d))
-       ELSE IF NotMapping(m.v) /\ ~Has(st, "dstar-pairs") THEN Ex(m.st, "TypeError", m.env)
-       ELSE Ex(NotMod(m.st, "DStar", "** of a plain " \o m.v.k), "", m.env)
+       ELSE IF NotMapping(mv) /\ ~Has(st, "dstar-pairs") THEN Ex(m.st, "TypeError", m.env)
+       ELSE Ex(NotMod(m.st, "DStar", "** of a plain " \o mv.k), "", m.env)
   ELSE IF Has(st, "dict-value-first") THEN
        LET v == Eval(n.vals[i], st, tr, env) IN IF Stop(v) THEN v ELSE
        LET k == Eval(n.keys[i], v.st, tr, v.env) IN IF Stop(k) THEN k ELSE
@@ -421,8 +552,8 @@ CondAll(ifs, i, st, tr, env) ==
   IF i > Len(ifs) \/ ~st.ok THEN [st |-> st, b |-> TRUE, x |-> "", env |-> env]
   ELSE LET c == Eval(ifs[i], st, tr, env) IN
        IF Stop(c) THEN [st |-> c.st, b |-> FALSE, x |-> c.x, env |-> c.env]
-       ELSE IF ~CanTruth(c.v) THEN [st |-> NotMod(c.st, "comprehension", "truth of opaque"), b |-> FALSE, x |-> "", env |-> c.env]
-       ELSE IF ~TruthOf(c.v) THEN [st |-> c.st, b |-> FALSE, x |-> "", env |-> c.env]
+       ELSE IF ~CanTruth(c.st, c.v) THEN [st |-> NotMod(c.st, "comprehension", "truth of opaque"), b |-> FALSE, x |-> "", env |-> c.env]
+       ELSE IF ~TruthOf(c.st, c.v) THEN [st |-> c.st, b |-> FALSE, x |-> "", env |-> c.env]
        ELSE CondAll(ifs, i + 1, c.st, tr, c.env)
 
 CompGen(n, gi, st, tr, env, acc) ==
@@ -430,15 +561,20 @@ CompGen(n, gi, st, tr, env, acc) ==
   IF Stop(itv) THEN L(itv.st, acc, itv.x, itv.env)
   ELSE IF IsRec(itv.v) THEN
        LET it == Prim(itv.st, tr, itv.env, n.k, "iter", "", <<itv.v>>, <<>>, 0) IN
-       IF Stop(it) THEN L(it.st, acc, it.x, itv.env) ELSE CompLoop(n, gi, it.v, <<>>, 1, it.st, tr, itv.env, acc)
-  ELSE IF itv.v.k = "seq" /\ itv.v.t # "set" THEN CompLoop(n, gi, NoIt, itv.v.e, 1, itv.st, tr, itv.env, acc)
-  ELSE IF itv.v.k = "dict" THEN CompLoop(n, gi, NoIt, itv.v.ks, 1, itv.st, tr, itv.env, acc)
-  ELSE IF NotIterable(itv.v) THEN L(itv.st, acc, "TypeError", itv.env)
-  ELSE L(NotMod(itv.st, n.k, "iteration of a plain " \o itv.v.k), acc, "", itv.env)
+       IF Stop(it) THEN L(it.st, acc, it.x, itv.env) ELSE CompLoop(n, gi, it.v, NoneV, 1, it.st, tr, itv.env, acc)
+  ELSE LET d == Deref(itv.st, itv.v) IN
+       \* a list is iterated LIVE (by index into its current content: a loop target may store into it); a tuple
+       \* is immutable; of a dict the keys at the start (a size change while iterating is not modelled)
+       IF d.k = "seq" /\ d.t # "set" THEN CompLoop(n, gi, NoIt, itv.v, 1, itv.st, tr, itv.env, acc)
+       ELSE IF d.k = "dict" THEN CompLoop(n, gi, NoIt, SeqV("tuple", d.ks), 1, itv.st, tr, itv.env, acc)
+       ELSE IF NotIterable(d) THEN L(itv.st, acc, "TypeError", itv.env)
+       ELSE L(NotMod(itv.st, n.k, "iteration of a plain " \o d.k), acc, "", itv.env)
 
 CompLoop(n, gi, it, items, j, st, tr, env, acc) ==
   IF ~st.ok THEN L(st, acc, "", env) ELSE
-  LET nx == IF it = NoIt THEN (IF j > Len(items) THEN Ex(st, "StopIteration", env) ELSE Ok(st, items[j], env))
+  IF it = NoIt /\ Deref(st, items).k # "seq" THEN L(NotMod(st, n.k, "iteration of an object with unknown content"), acc, "", env) ELSE
+  LET cur == Deref(st, items).e
+      nx == IF it = NoIt THEN (IF j > Len(cur) THEN Ex(st, "StopIteration", env) ELSE Ok(st, cur[j], env))
             ELSE Prim(st, tr, env, n.k, "next", "", <<it>>, <<>>, 0) IN
   IF ~nx.st.ok THEN L(nx.st, acc, "", env)
   ELSE IF nx.x = "StopIteration" THEN L(nx.st, acc, "", env)
@@ -472,9 +608,9 @@ Comp(n, st, tr, env) ==
      ELSE IF n.k = "DictComp" THEN
           LET RECURSIVE Put(_, _)
               Put(j, d) == IF j > Len(r.vs) THEN d ELSE Put(j + 1, DictPut(d, r.vs[j].k, r.vs[j].v, 1))
-          IN Ok(r.st, Put(1, EmptyDict), back)
-     ELSE IF n.k = "SetComp" THEN Ok(r.st, SeqV("set", Dedupe(r.vs, 1, <<>>)), back)
-     ELSE Ok(r.st, SeqV("list", r.vs), back)
+          IN New(r.st, Put(1, EmptyDict), back)
+     ELSE IF n.k = "SetComp" THEN New(r.st, SeqV("set", Dedupe(r.vs, 1, <<>>)), back)
+     ELSE New(r.st, SeqV("list", r.vs), back)                       \* (a comprehension builds a new object)
 
 \* ---------------------------------------------------------------- f-strings
 ConvOp(c) == IF c = "s" THEN "s" ELSE "r"         \* ascii() calls __repr__
@@ -528,7 +664,7 @@ Eval(n, st, tr, env) ==
          BinPrim(n.op, l.v, r.v, FALSE, r.st, tr, r.env, "BinOp")
     [] n.k = "UnaryOp" ->
          LET o == Eval(n.v, st, tr, env) IN IF Stop(o) THEN o ELSE
-         IF n.op = "not" THEN IF CanTruth(o.v) THEN Ok(o.st, B(~TruthOf(o.v)), o.env)
+         IF n.op = "not" THEN IF CanTruth(o.st, o.v) THEN Ok(o.st, B(~TruthOf(o.st, o.v)), o.env)
                               ELSE Ex(NotMod(o.st, "UnaryOp", "truth of opaque"), "", o.env)
          ELSE IF n.op = "pos" /\ Has(st, "uadd-noop") THEN o
          ELSE IF IsRec(o.v) THEN Prim(o.st, tr, o.env, "UnaryOp", "op1", n.op, <<o.v>>, <<>>, 0)
@@ -538,13 +674,13 @@ Eval(n, st, tr, env) ==
          LET l == Eval(n.l, st, tr, env) IN IF Stop(l) THEN l ELSE Chain(l.v, n, 1, l.st, tr, l.env, 0)
     [] n.k = "IfExp" ->
          LET c == Eval(n.test, st, tr, env) IN IF Stop(c) THEN c ELSE
-         IF ~CanTruth(c.v) THEN Ex(NotMod(c.st, "IfExp", "truth of opaque"), "", c.env)
-         ELSE Eval(IF TruthOf(c.v) THEN n.body ELSE n.orelse, c.st, tr, c.env)
+         IF ~CanTruth(c.st, c.v) THEN Ex(NotMod(c.st, "IfExp", "truth of opaque"), "", c.env)
+         ELSE Eval(IF TruthOf(c.st, c.v) THEN n.body ELSE n.orelse, c.st, tr, c.env)
     [] n.k = "Subscript" ->
          LET o == Eval(n.v, st, tr, env) IN IF Stop(o) THEN o ELSE
          LET s == Eval(n.s, o.st, tr, o.env) IN IF Stop(s) THEN s ELSE
          IF IsRec(o.v) THEN Prim(s.st, tr, s.env, "Subscript", "getitem", "", <<o.v, s.v>>, <<>>, 0)
-         ELSE OpaqueOp(s.st, s.env, "Subscript", tr)
+         ELSE PlainGet(o.v, s.v, s.st, tr, s.env, "Subscript")
     [] n.k = "Slice" ->
          LET r == EvalElts(<<n.lo, n.hi, n.step>>, 1, st, tr, env, <<>>) IN
          IF r.x # "" \/ ~r.st.ok THEN Ex(r.st, r.x, r.env) ELSE Ok(r.st, [k |-> "slice", e |-> r.vs], r.env)
@@ -557,8 +693,8 @@ Eval(n, st, tr, env) ==
          LET r == EvalElts(n.elts, 1, st, tr, env, <<>>) IN
          IF r.x # "" \/ ~r.st.ok THEN Ex(r.st, r.x, r.env)
          ELSE IF n.k = "Set" /\ \E j \in 1..Len(r.vs) : Unhashable(r.vs[j]) THEN Ex(NotMod(r.st, "Set", "unhashable element"), "", r.env)
-         ELSE Ok(r.st, CASE n.k = "List" -> SeqV("list", r.vs) [] n.k = "Tuple" -> SeqV("tuple", r.vs)
-                         [] OTHER -> SeqV("set", Dedupe(r.vs, 1, <<>>)), r.env)
+         ELSE IF n.k = "Tuple" THEN Ok(r.st, SeqV("tuple", r.vs), r.env)
+         ELSE New(r.st, IF n.k = "List" THEN SeqV("list", r.vs) ELSE SeqV("set", Dedupe(r.vs, 1, <<>>)), r.env)   \* a new object per evaluation
     [] n.k = "Dict" -> DictDisplay(n, 1, st, tr, env, EmptyDict)
     [] n.k \in {"ListComp", "SetComp", "DictComp"} -> Comp(n, st, tr, env)
     [] n.k = "GeneratorExp" -> Ex(NotMod(st, "GeneratorExp", "lazy generator"), "", env)
@@ -581,16 +717,20 @@ PullN(it, cnt, st, tr, env, acc, kind) ==
 StarPos(ts) == IF \E i \in 1..Len(ts) : ts[i].k = "Starred" THEN CHOOSE i \in 1..Len(ts) : ts[i].k = "Starred" ELSE 0
 
 \* distribute the pulled values over the targets, left to right
+\* (vals is the SNAPSHOT of the items taken before the first store: a target that stores into the very object
+\* being unpacked does not change what the later targets receive; the starred target gets a NEW list)
 AssignSeq(ts, vals, i, st, tr, env) ==
   IF i > Len(ts) \/ ~st.ok THEN S(st, env, "")
   ELSE LET sp == StarPos(ts)
            after == Len(ts) - sp
+           star == ts[i].k = "Starred"
+           st1 == IF star THEN Alloc(st, SeqV("list", SubSeq(vals, sp, Len(vals) - after))) ELSE st
            v == IF sp = 0 \/ i < sp THEN vals[i]
-                ELSE IF i = sp THEN SeqV("list", SubSeq(vals, sp, Len(vals) - after))
+                ELSE IF i = sp THEN Ref(Len(st.h) + 1)
                 ELSE vals[Len(vals) - (Len(ts) - i)]
-           t == IF ts[i].k = "Starred" THEN ts[i].v ELSE ts[i]
-       IN IF ts[i].k = "Starred" /\ t.k # "Name" /\ Has(st, "star-target-nonname") THEN S(st, env, "AttributeError")
-          ELSE LET a == AssignTo(t, v, st, tr, env) IN
+           t == IF star THEN ts[i].v ELSE ts[i]
+       IN IF star /\ t.k # "Name" /\ Has(st, "star-target-nonname") THEN S(st, env, "AttributeError")
+          ELSE LET a == AssignTo(t, v, st1, tr, env) IN
                IF a.x # "" THEN a ELSE AssignSeq(ts, vals, i + 1, a.st, tr, a.env)
 
 Unpack(ts, v, st, tr, env) ==
@@ -623,12 +763,13 @@ Unpack(ts, v, st, tr, env) ==
                  IF rest.x # "" \/ ~rest.st.ok THEN S(rest.st, env, rest.x)
                  ELSE IF Len(rest.vs) < Len(ts) - sp THEN S(rest.st, env, "ValueError")
                  ELSE AssignSeq(ts, p.vs \o rest.vs, 1, rest.st, tr, env)
-  ELSE IF (v.k = "seq" /\ v.t # "set") \/ v.k = "dict" THEN
-       LET items == IF v.k = "dict" THEN v.ks ELSE v.e IN
+  ELSE LET d == Deref(st, v) IN
+       IF (d.k = "seq" /\ d.t # "set") \/ d.k = "dict" THEN
+       LET items == IF d.k = "dict" THEN d.ks ELSE d.e IN           \* the items NOW, before any target is stored
        IF Len(items) < need \/ (sp = 0 /\ Len(items) > need) THEN S(st, env, "ValueError")
        ELSE AssignSeq(ts, items, 1, st, tr, env)
-  ELSE IF NotIterable(v) THEN S(st, env, "TypeError")
-  ELSE S(NotMod(st, "Unpack", "unpacking a plain " \o v.k), env, "")
+  ELSE IF NotIterable(d) THEN S(st, env, "TypeError")
+  ELSE S(NotMod(st, "Unpack", "unpacking a plain " \o d.k), env, "")
 
 AssignTo(t, v, st, tr, env) ==
   IF ~st.ok THEN S(st, env, "")
@@ -637,7 +778,9 @@ AssignTo(t, v, st, tr, env) ==
          LET o == Eval(t.v, st, tr, env) IN IF Stop(o) THEN SofR(o) ELSE
          LET s == Eval(t.s, o.st, tr, o.env) IN IF Stop(s) THEN SofR(s) ELSE
          IF IsRec(o.v) THEN SofR(Prim(s.st, tr, s.env, "Subscript", "setitem", "", <<o.v, s.v, v>>, <<>>, 0))
-         ELSE S(NotMod(s.st, "Subscript", "store into a plain container"), s.env, "")
+         ELSE IF IsRef(o.v) THEN PlainSet(o.v, s.v, v, s.st, tr, s.env, "Subscript")
+         ELSE IF o.v.k \in {"none", "b", "c"} \/ IsTupD(o.v) THEN S(s.st, s.env, "TypeError")       \* no item assignment
+         ELSE S(NotMod(s.st, "Subscript", "store into a plain value without identity"), s.env, "")
     [] t.k = "Attribute" ->
          LET o == Eval(t.v, st, tr, env) IN IF Stop(o) THEN SofR(o) ELSE
          IF IsRec(o.v) THEN SofR(Prim(o.st, tr, o.env, "Attribute", "setattr", t.attr, <<o.v, v>>, <<>>, 0))
@@ -654,7 +797,9 @@ DelTarget(t, st, tr, env) ==
          LET o == Eval(t.v, st, tr, env) IN IF Stop(o) THEN SofR(o) ELSE
          LET s == Eval(t.s, o.st, tr, o.env) IN IF Stop(s) THEN SofR(s) ELSE
          IF IsRec(o.v) THEN SofR(Prim(s.st, tr, s.env, "Delete", "delitem", "", <<o.v, s.v>>, <<>>, 0))
-         ELSE S(NotMod(s.st, "Delete", "del on a plain container"), s.env, "")
+         ELSE IF IsRef(o.v) THEN PlainDel(o.v, s.v, s.st, tr, s.env, "Delete")
+         ELSE IF o.v.k \in {"none", "b", "c"} \/ IsTupD(o.v) THEN S(s.st, s.env, "TypeError")       \* no item deletion
+         ELSE S(NotMod(s.st, "Delete", "del on a plain value without identity"), s.env, "")
     [] t.k = "Attribute" ->
          IF Has(st, "del-attr-as-state") THEN S(st, env, "NameError") ELSE
          LET o == Eval(t.v, st, tr, env) IN IF Stop(o) THEN SofR(o) ELSE
@@ -690,8 +835,9 @@ ExecStmt(s, st, tr, env) ==
               LET isSub == s.t.k = "Subscript"
                   o  == Eval(s.t.v, st, tr, env) IN IF Stop(o) THEN SofR(o) ELSE
               LET ix == IF isSub THEN Eval(s.t.s, o.st, tr, o.env) ELSE Ok(o.st, NoneV, o.env) IN IF Stop(ix) THEN SofR(ix) ELSE
-              IF ~IsRec(o.v) THEN S(NotMod(ix.st, "AugAssign", "plain container"), ix.env, "") ELSE
-              LET g == IF isSub THEN Prim(ix.st, tr, ix.env, "AugAssign", "getitem", "", <<o.v, ix.v>>, <<>>, 0)
+              IF ~IsRec(o.v) /\ ~(isSub /\ IsRef(o.v)) THEN S(NotMod(ix.st, "AugAssign", "plain container"), ix.env, "") ELSE
+              LET g == IF ~IsRec(o.v) THEN PlainGet(o.v, ix.v, ix.st, tr, ix.env, "AugAssign")
+                       ELSE IF isSub THEN Prim(ix.st, tr, ix.env, "AugAssign", "getitem", "", <<o.v, ix.v>>, <<>>, 0)
                        ELSE Prim(ix.st, tr, ix.env, "AugAssign", "getattr", s.t.attr, <<o.v>>, <<>>, 0) IN
               IF Stop(g) THEN SofR(g) ELSE
               LET e == Eval(s.v, g.st, tr, g.env) IN IF Stop(e) THEN SofR(e) ELSE
@@ -699,9 +845,11 @@ ExecStmt(s, st, tr, env) ==
               IF Has(st, "aug-target-twice") THEN
                    LET o2  == Eval(s.t.v, p.st, tr, p.env) IN IF Stop(o2) THEN SofR(o2) ELSE
                    LET ix2 == IF isSub THEN Eval(s.t.s, o2.st, tr, o2.env) ELSE Ok(o2.st, NoneV, o2.env) IN IF Stop(ix2) THEN SofR(ix2) ELSE
-                   IF ~IsRec(o2.v) THEN S(NotMod(ix2.st, "AugAssign", "plain container"), ix2.env, "") ELSE
+                   IF ~IsRec(o2.v) /\ ~(isSub /\ IsRef(o2.v)) THEN S(NotMod(ix2.st, "AugAssign", "plain container"), ix2.env, "") ELSE
+                   IF ~IsRec(o2.v) THEN PlainSet(o2.v, ix2.v, p.v, ix2.st, tr, ix2.env, "AugAssign") ELSE
                    IF isSub THEN SofR(Prim(ix2.st, tr, ix2.env, "AugAssign", "setitem", "", <<o2.v, ix2.v, p.v>>, <<>>, 0))
                    ELSE SofR(Prim(ix2.st, tr, ix2.env, "AugAssign", "setattr", s.t.attr, <<o2.v, p.v>>, <<>>, 0))
+              ELSE IF ~IsRec(o.v) THEN PlainSet(o.v, ix.v, p.v, p.st, tr, p.env, "AugAssign")
               ELSE IF isSub THEN SofR(Prim(p.st, tr, p.env, "AugAssign", "setitem", "", <<o.v, ix.v, p.v>>, <<>>, 0))
               ELSE SofR(Prim(p.st, tr, p.env, "AugAssign", "setattr", s.t.attr, <<o.v, p.v>>, <<>>, 0))
     [] s.k = "Delete" ->
@@ -735,6 +883,6 @@ Accept(c, rec, fl) ==
                        nm |-> r.st.nm]
      ELSE IF r.st.l # Len(rec.trace) + 1 THEN bad("program", "extra events after the program completed: " \o rec.trace[r.st.l].e)
      ELSE IF r.x # rec.exc THEN bad("program", "exception differs: machine '" \o r.x \o "' recorded '" \o rec.exc \o "'")
-     ELSE IF ~SameEnv(r.env, rec.final) THEN bad("program", "final bindings differ: " \o EnvDiff(r.env, rec.final))
+     ELSE IF ~SameEnv(ReifyEnv(r.st.h, r.env), rec.final) THEN bad("program", "final bindings differ: " \o EnvDiff(ReifyEnv(r.st.h, r.env), rec.final))
      ELSE [ok |-> TRUE, kind |-> "", why |-> "", at |-> r.st.l, nm |-> FALSE]
 =============================================================================
